@@ -7,7 +7,7 @@ import ast
 from ..cfg import cfg_of
 from ..model import AnalysisError, call_name, calls_in, dotted, norm, walk_no_nested
 from .. import rules
-from . import _items
+from . import _codec, _items
 
 ITEM_NUMERIC = {"U1": "ItemU1", "U2": "ItemU2", "U4": "ItemU4", "U8": "ItemU8", "I1": "ItemI1", "I2": "ItemI2", "I4": "ItemI4", "I8": "ItemI8", "F4": "ItemF4", "F8": "ItemF8"}
 ITEM_OTHERS = {"L": "ItemL", "B": "ItemB", "BOOLEAN": "ItemBOOLEAN", "A": "ItemA", "J": "ItemJ"}
@@ -137,13 +137,34 @@ def check_shapes(ctx):
     ctx.ob("C14.P1", dec.qualname, ok, "lists: exactly `length` children are decoded in order from the shared cursor" if ok else "ItemL.decode is not [Item.decode(data) for _ in range(length)]", where=dec.where)
     pd = repo.cls("PacketData")
     g = pd.methods["get"]
-    txt = [norm(s) for s in rules.func_stmts(g.node)]
-    ok = txt == ["result = self._data[:length]", "self._data = self._data[length:]", "return result"]
-    ctx.ob("C14.P1", g.qualname, ok, "PacketData.get returns the next n bytes and advances by n" if ok else "PacketData.get does not return+consume the same leading bytes", where=g.where)
+    _codec.agree(ctx, "C14.P1", g, REF_ITEM["get"], {"returns": "PacketData.get returns the next n bytes", "stores": "and advances by n"}, key_prefix="get ")
     g1 = pd.methods["get_one"]
-    txt = [norm(s) for s in rules.func_stmts(g1.node)]
-    ok = txt == ["result = self._data[0]", "self._data = self._data[1:]", "return result"]
-    ctx.ob("C14.P1", g1.qualname, ok, "PacketData.get_one returns the next byte and advances by one" if ok else "PacketData.get_one does not return+consume one byte", where=g1.where)
+    _codec.agree(ctx, "C14.P1", g1, REF_ITEM["get_one"], {"returns": "PacketData.get_one returns the next byte", "stores": "and advances by one"}, key_prefix="get-one ")
+
+
+REF_ITEM = {
+    "_from_value_int": """
+def _from_value_int(cls, value):
+    types = ["U1", "U2", "U4", "U8"] if value >= 0 else ["I1", "I2", "I4", "I8"]
+    for f_type in types:
+        typ = cls._subclasses_by_sml[f_type]
+        if typ.minimum_value <= value <= typ.maximum_value:
+            return typ(value)
+    return cls._subclasses_by_sml["I8"](value)
+""",
+    "get": """
+def get(self, length):
+    result = self._data[:length]
+    self._data = self._data[length:]
+    return result
+""",
+    "get_one": """
+def get_one(self):
+    result = self._data[0]
+    self._data = self._data[1:]
+    return result
+""",
+}
 
 
 def check_from_value(ctx):
@@ -179,22 +200,9 @@ def check_from_value(ctx):
            key="identity-return", where=f.where)
     g = repo.method("Item", "_from_value_int", inherited=False)
     ctx.touch(g)
-    gcfg = cfg_of(g.node)
-    lists = [s for s in rules.func_stmts(g.node) if isinstance(s, ast.Assign) and isinstance(s.value, ast.IfExp)]
-    ctx.require(len(lists) == 1 and isinstance(lists[0].value.body, ast.List) and isinstance(lists[0].value.orelse, ast.List), f"{g.qualname}: candidate lists `[...] if value >= 0 else [...]` not found - unknown selection idiom")
-    ie = lists[0].value
-    unsigned = [e.value for e in ie.body.elts]
-    signed = [e.value for e in ie.orelse.elts]
-    cond = norm(ie.test)
-    ok = cond in ("value >= 0", "0 <= value") and unsigned == ["U1", "U2", "U4", "U8"] and signed == ["I1", "I2", "I4", "I8"]
-    ctx.ob("C14.P2", g.qualname, ok, "non-negative integers try U1,U2,U4,U8 and negative ones I1,I2,I4,I8 (increasing width)" if ok else f"candidates: {unsigned} if {cond} else {signed}", key="candidates", where=g.where)
-    tests = [n for n in gcfg.nodes if n.kind == "test" and "minimum_value" in norm(n.ast)]
-    ok = len(tests) == 1 and norm(tests[0].ast) == "typ.minimum_value <= value <= typ.maximum_value"
-    ctx.ob("C14.P2", g.qualname, ok, "the first candidate whose exact range contains the value is taken (narrowest type)" if ok else "selection is not `typ.minimum_value <= value <= typ.maximum_value` on the candidates in order", key="containment", where=g.where)
-    if ok:
-        rets = [n for n in gcfg.real_nodes() if isinstance(n.ast, ast.Return) and gcfg.dominates(rules.branch_marker(tests[0], "true"), n)]
-        ok2 = len(rets) == 1 and norm(rets[0].ast.value) == "typ(value)"
-        ctx.ob("C14.P2", g.qualname, ok2, "the chosen class is instantiated with the unchanged value" if ok2 else "the chosen class is not instantiated as typ(value)", key="instantiate", where=g.where)
+    _codec.agree(ctx, "C14.P2", g, REF_ITEM["_from_value_int"], {
+        "returns": "non-negative integers try U1,U2,U4,U8 and negative ones I1,I2,I4,I8 in increasing width; the first candidate whose exact range contains the value is instantiated with the unchanged value (I8 otherwise)",
+    }, key_prefix="candidates ")
     for prop, fld in (("minimum_value", "self._minimum_value"), ("maximum_value", "self._maximum_value")):
         p = repo.method("Item", prop, inherited=False)
         rets = [s for s in rules.func_stmts(p.node) if isinstance(s, ast.Return)]
